@@ -9,6 +9,11 @@ def families():
                       cat={"b1": attr("app", "far"), "b2": attr("p1", "p2", prev="p1")}),
         "samets": dict(peers=P[:2], enabled=["Submit", "PeerUp", "SetFail", "RetryTick", "Restart"],
                        cat={"b1": attr("app", "far", tsg=1), "b2": attr("app", "far", tsg=1), "b3": attr("app", "p1", tsg=1)}),
+        # a bundle arrives from a peer at the moment the application submits one (Core.handler and the agent manager's goroutine
+        # work on the shared store at the same time): both are accepted; several such moments per behaviour
+        "race": dict(peers=P[:2], enabled=["PeerUp", "Race", "RetryTick"],
+                     cat={"r1": attr("p1", "far", prev="p1"), "r2": attr("p1", "far", prev="p1"), "r3": attr("p1", "far", prev="p1"), "r4": attr("p1", "far", prev="p1"),
+                          "s1": attr("app", "far"), "s2": attr("app", "far"), "s3": attr("app", "far"), "s4": attr("app", "far")}),
         "clockless": dict(peers=P[:2], enabled=BASIC + ["CleanTick", "Restart"],
                           cat={"b1": attr("app", "far", clockless=True), "b2": attr("p1", "p2", prev="p1", clockless=True)}),
     }
@@ -35,8 +40,12 @@ def run(tier):
     for a in (["epidemic"] if quick else algos):
         plans.append(dict(name="samets", fam=fams["samets"], algo=a, budget=3, steps=4 if quick else 5, cap=120 if quick else None, mc=not quick))
         plans.append(dict(name="clockless", fam=fams["clockless"], algo=a, budget=3, steps=4 if quick else 5, cap=120 if quick else None, mc=not quick))
+    plans.append(dict(name="race", fam=fams["race"], algo="epidemic", budget=3, steps=2, sim=(400, 6) if quick else (6000, 6), cap=300 if quick else 5000, mc=False,
+                      prefer=lambda h: [st["act"] for st in h].count("Race")))
     total, st = run_families(chk, "C05", plans, tier)
     own_violations(chk, "C05")
+    if st.get("races", 0) < 200:
+        raise InfraError("vacuous: only %s concurrent arrivals were replayed" % st.get("races"))
     chk.cov["traces_validated_against_impl"] = total
     chk.cov["evaluations"] = total
     chk.cov["distinct_nontrivial"] = total
